@@ -20,7 +20,9 @@ def main():
                 mod.generate(ctx)
     # 2. Lean: all property modules + drivers
     props = sorted("Poly.Props." + os.path.basename(p)[:-5] for p in glob.glob(os.path.join(vcheck.LEAN, "Poly", "Props", "*.lean")))
-    exes = re.findall(r'name = "(drv_[a-z0-9_]+)"', open(os.path.join(vcheck.LEAN, "lakefile.toml")).read())
+    lf = open(os.path.join(vcheck.LEAN, "lakefile.toml")).read()
+    exes = [n for n, r in re.findall(r'name = "(drv_[a-z0-9_]+)"\s*\nroot = "([A-Za-z0-9_.]+)"', lf)
+            if os.path.exists(os.path.join(vcheck.LEAN, *r.split(".")) + ".lean")]
     rc, out = ctx.lean_build(props + exes, timeout=7200)
     if rc != 0:
         print(out[-6000:])
